@@ -46,7 +46,7 @@ NoIdt == [name |-> "none", sub |-> "none", aud |-> <<>>, azp |-> "none", nonce |
 NoOut == [class |-> "none", status |-> 0, err |-> "none", doc |-> FALSE, req |-> "none", target |-> "none",
           channel |-> "none", state |-> "none", code |-> "none", at |-> NoTok, rt |-> NoRt, idt |-> NoIdt,
           scope |-> <<>>, sub |-> "none", rotated |-> "none", bare |-> TRUE, dc |-> "none", uc |-> "none",
-          journal |-> <<>>, issuedType |-> "", actor |-> "none", auth |-> "none", expiresOff |-> 0]
+          journal |-> <<>>, issuedType |-> "", actor |-> "none", auth |-> "none", expiresOff |-> 0, faulted |-> FALSE]
 
 Init0 ==
   /\ reqs = Empty /\ codes = Empty /\ redeemed = {} /\ toks = Empty /\ rts = Empty /\ idts = Empty
@@ -300,6 +300,12 @@ LiveRef(t) ==
         [] t.kind = "refresh" -> t.form = "issued" /\ LiveRT(t.id)
         [] t.kind = "id"      -> t.form = "valid" /\ Has(idts, t.id)
         [] OTHER -> FALSE
+\* liveness of what the string really is, whatever type the request declares for it (C08)
+LiveKind(t) ==
+  CASE t.kind = "access"  -> LiveAT([form |-> t.form, id |-> t.id])
+    [] t.kind = "refresh" -> t.form = "issued" /\ LiveRT(t.id)
+    [] t.kind = "id"      -> t.form = "valid" /\ Has(idts, t.id)
+    [] OTHER -> FALSE
 SubOfRef(t) == CASE t.kind = "access" -> toks[t.id].sub [] t.kind = "refresh" -> rts[t.id].sub [] OTHER -> idts[t.id].sub
 
 IssuableTypes == {"access", "refresh", "id"}
@@ -312,6 +318,9 @@ RulesTokenExchange(a, o) ==
       wantScopes == Range(a.scopes) \ {cfg.policy.drop} IN
   { <<"C05.te.auth",     ok => (a.caller \in Clients /\ IsConfidential(a.caller) /\ AuthOK(a.caller, a.cred))>>,
     <<"C05.te.grant",    ok => (a.caller \in Clients /\ "te" \in Reg[a.caller].grants /\ cfg.te)>>,
+    \* C08: "token exchange accepts a subject or actor token only for a token the provider actually issued that is neither expired, revoked ..."
+    <<"C08.exchange.subject", ok => LiveKind(a.subj)>>,
+    <<"C08.exchange.actor",   (ok /\ hasActor) => LiveKind(a.actor)>>,
     <<"C15.subject.type", ok => a.subj.declared = a.subj.kind>>,
     <<"C15.subject.live", (ok /\ a.subj.declared = a.subj.kind) => LiveRef(a.subj)>>,
     <<"C15.actor.type",   (ok /\ hasActor) => a.actor.declared = a.actor.kind>>,
@@ -423,8 +432,20 @@ RulesIssued(e) ==
     <<"C06.response.scope",   (hasAT /\ o.scope # <<>>) => Range(o.scope) = Range(at.scopes)>> }
 
 \* rules that apply to every event, whatever the operation (C09 on the server side)
+\* C10: out.faulted = a storage call made while serving this request failed (fault plan of the harness store).
+\* The answer must then be an error (OAuth error document / error page with a 4xx-5xx status, an error redirect to the
+\* validated URI, or an inactive introspection) and carry no code, token, claims or active:true.
 Universal(e) == { <<"C09.nopanic", e.out.class # "panic">>,
-                  <<"C09.oneResponse", e.out.class # "double">> }
+                  <<"C09.oneResponse", e.out.class # "double">>,
+                  <<"C10.failclosed", e.out.faulted =>
+                       (/\ e.out.class \in {"json", "page", "redirErr", "inactive"}
+                        /\ (e.out.class \in {"json", "page"} => e.out.status >= 400)
+                        /\ e.out.at.name = "none" /\ e.out.rt.name = "none" /\ e.out.idt.name = "none" /\ e.out.code = "none")>> }
 
-Check(e) == {r[1] : r \in {x \in Rules(e) \cup RulesIssued(e) \cup Universal(e) : ~x[2]}}
+\* Rules that EXPECT a particular answer of a fitting request.  When a storage call failed while the request was served
+\* (out.faulted) an error answer is legitimate (C10 demands it), so these rules do not apply to such an event.
+Expectations == {"C07.refresh.invalidScope", "C08.revoke.unknown", "C08.revoke.owner", "C16.poll.pending", "C16.poll.denied",
+                 "C16.poll.expired", "C16.poll.slow", "C18.hint.expired"}
+
+Check(e) == {r[1] : r \in {x \in Rules(e) \cup RulesIssued(e) \cup Universal(e) : ~x[2] /\ ~(e.out.faulted /\ x[1] \in Expectations)}}
 =============================================================================
